@@ -1,5 +1,5 @@
 (* MV.C03.Properties — property C03 ("every actor incarnation sees a well-formed lifecycle") on the kernel model. *)
-From MV Require Import Lib.ListX Kernel.Model Kernel.Run Kernel.Lifecycle.
+From MV Require Import Lib.ListX Kernel.Model Kernel.Run Kernel.Lifecycle Kernel.Status.
 Open Scope Z_scope.
 
 (* Clause "nothing at all is handled by that incarnation after its own OnTerminated": an actor object whose
@@ -10,6 +10,23 @@ Theorem C03_terminated_handles_nothing : forall roles s u a s' o,
   existsb is_handled o = false.
 Proof. exact terminated_silent. Qed.
 Print Assumptions C03_terminated_handles_nothing.
+
+(* The status Terminated is final, for every role table and every run from every state: no later step — restart
+   requests, late terminate requests, failures, anything — changes it (status monotonicity; with the repaired
+   onRestart a terminated actor cannot be revived). *)
+Theorem C03_terminated_is_final : forall roles s u a ls s' os,
+  get s u = Some a -> a_st a = Terminated -> krun roles s ls = Some (s', os) ->
+  exists a', get s' u = Some a' /\ a_st a' = Terminated.
+Proof. exact terminated_is_final. Qed.
+Print Assumptions C03_terminated_is_final.
+
+(* Trace form of the clause: once an actor object is Terminated (the status set right before its own OnTerminated
+   is handled), then after ANY further run, a step of its mailbox handles nothing. *)
+Theorem C03_nothing_handled_after_terminated : forall roles s u a ls s1 os s2 o,
+  get s u = Some a -> a_st a = Terminated -> krun roles s ls = Some (s1, os) ->
+  kstep roles s1 (LRun (Z.of_nat u)) = Some (s2, o) -> existsb is_handled o = false.
+Proof. exact nothing_handled_after_terminated. Qed.
+Print Assumptions C03_nothing_handled_after_terminated.
 
 (* FULL statement of the first clause: "for each incarnation the first message handled is OnLaunch, preceded
    only by OnRestarted when the incarnation results from a restart". It is FALSE of the faithful model (and of
